@@ -837,6 +837,26 @@ func c19One(e *Env, pool *hx.Pool, c c19Case) {
 	}
 }
 
+// skipOpts: the same skip policy handed to the differ in different ways - one option holding every kind, one
+// option per kind, one option followed by an empty one, two options holding a half each. The policy is the
+// union of what the options name, however they are cut.
+func skipOpts(skips []schema.Change, variant int) []schema.DiffOption {
+	switch variant % 4 {
+	case 1:
+		var out []schema.DiffOption
+		for _, k := range skips {
+			out = append(out, schema.DiffSkipChanges(k))
+		}
+		return out
+	case 2:
+		return []schema.DiffOption{schema.DiffSkipChanges(skips...), schema.DiffSkipChanges()}
+	case 3:
+		h := len(skips) / 2
+		return []schema.DiffOption{schema.DiffSkipChanges(skips[:h]...), schema.DiffSkipChanges(skips[h:]...)}
+	}
+	return []schema.DiffOption{schema.DiffSkipChanges(skips...)}
+}
+
 func c19Skip(e *Env, sc skipCase) {
 	r := hx.NewRand(sc.Seed, "skip")
 	from, to := editedPair(r, sc.Dialect)
@@ -848,7 +868,7 @@ func c19Skip(e *Env, sc skipCase) {
 		skipped[k] = true
 	}
 	full, err1 := d.SchemaDiff(from, to, schema.DiffNormalized())
-	with, err2 := d.SchemaDiff(from, to, schema.DiffNormalized(), schema.DiffSkipChanges(skips...))
+	with, err2 := d.SchemaDiff(from, to, append([]schema.DiffOption{schema.DiffNormalized()}, skipOpts(skips, int(sc.Seed%4))...)...)
 	e.Res.Count("skip:"+hxJSON(sc), len(sc.Skip) > 0, "skip:"+sc.Dialect, fmt.Sprintf("skipset:%d", len(sc.Skip)))
 	if err1 != nil || err2 != nil {
 		e.Res.Tag("skip:differ-error")
@@ -874,7 +894,7 @@ func c19Skip(e *Env, sc skipCase) {
 	added.Name, gone.Name = "s_added", "s_gone"
 	fromR, toR := schema.NewRealm(f2, gone), schema.NewRealm(t2, added)
 	rfull, err1 := d.RealmDiff(fromR, toR, schema.DiffNormalized())
-	rwith, err2 := d.RealmDiff(fromR, toR, schema.DiffNormalized(), schema.DiffSkipChanges(skips...))
+	rwith, err2 := d.RealmDiff(fromR, toR, append([]schema.DiffOption{schema.DiffNormalized()}, skipOpts(skips, int(sc.Seed/4%4))...)...)
 	if err1 != nil || err2 != nil {
 		e.Res.Tag("skip:realm-differ-error")
 		return
